@@ -8,14 +8,17 @@ automaton are NOT):
   Shift-Or          new returns None exactly when needle.len() > 15 and otherwise stores that length (SPEC-POST);
                     Some(i) in range
   packed pair       new/with_pair: relation of the stored pair/bytes to the needle; find: documented panic exact
-                    (DOC-PANIC), Some(i) in range, POST-VERIFIED; prefilter completeness is C11"""
+                    (DOC-PANIC), Some(i) in range, POST-VERIFIED, and COMPLETE (POST-NONE / POST-FIRST over candidate
+                    positions: pair-mask lanes, lane-by-lane confirmation loop, masked overlapping tail, early exits):
+                    together a proof that `find` returns exactly the leftmost occurrence on its documented domain,
+                    relative to the vector axioms; prefilter completeness is C11"""
 from . import c03
 
 PID = 'C12'
 ROOTS = (r"^arch::all::twoway::(Finder::(new|find)|FinderRev::(new|rfind))$|^arch::all::rabinkarp::(Finder::(new|find)|FinderRev::(new|rfind))$"
          r"|^arch::all::shiftor::Finder::(new|find)$"
          r"|^arch::(all|x86_64::sse2|x86_64::avx2|aarch64::neon|wasm32::simd128)::packedpair::Finder::(find|new|with_pair)$")
-FLOORS = {'REL-POST': 40, 'POST-VERIFIED': 6, 'MEMO': 2, 'SPEC-POST': 4}
+FLOORS = {'REL-POST': 40, 'POST-VERIFIED': 6, 'MEMO': 2, 'SPEC-POST': 4, 'POST-NONE': 2, 'POST-FIRST': 2}
 
 
 def run(ctx):
